@@ -21,7 +21,8 @@ PROBES = {
             "no_leak_checked", "honest_recomputation_checked", "prefitted_forecaster",
             "missing_values_in_training_window", "fit_params_checked",
             "x_consuming_forecaster", "missing_values_in_test_window", "raw_metric_checked",
-            "exogenous_windows_checked", "splitter_object_reused", "windows_with_holes"],
+            "exogenous_windows_checked", "splitter_object_reused", "windows_with_holes",
+            "integer_valued_series"],
     "C08": ["tie_in_best_score", "greater_is_better", "nested_param_names", "multiplexer_grid",
             "randomized_search", "refit_false", "interleave_schedule", "pre_dispatch_window",
             "lockstep_history_checked", "sibling_schedule_checked", "list_of_grids",
@@ -109,6 +110,10 @@ def build_metric(name):
         return MeanSquaredError(square_root=True)
     if name == "asym":
         return make_forecasting_scorer(_asym, name="asym", greater_is_better=False)
+    if name == "asym_np":    # the direction flag as it comes out of a numpy comparison
+        return make_forecasting_scorer(_asym, name="asym_np", greater_is_better=np.bool_(False))
+    if name == "skill_np":
+        return make_forecasting_scorer(_skill, name="skill_np", greater_is_better=np.bool_(True))
     if name == "rel_true":
         return make_forecasting_scorer(_rel_true, name="rel_true", greater_is_better=False)
     if name == "neg_mae":
@@ -136,13 +141,14 @@ def raw_metric(name):
              "mse": lambda t, p: float(np.mean((t - p) ** 2)),
              "rmse": lambda t, p: float(np.sqrt(np.mean((t - p) ** 2))),
              "asym": _asym, "rel_true": _rel_true, "neg_mae": _neg_mae, "skill": _skill,
+             "asym_np": _asym, "skill_np": _skill,
              "corr": _corr, "nan_mae": _nan_mae}
     f = table[name]
     return lambda y_true, y_pred: f(np.asarray(y_true, float), np.asarray(y_pred, float))
 
 
 ORDER_SENSITIVE = {"mape", "asym", "rel_true", "skill"}
-GREATER = {"neg_mae", "skill", "corr"}
+GREATER = {"neg_mae", "skill", "corr", "skill_np"}
 
 
 # ------------------------------------------------------------------ generation
@@ -209,6 +215,8 @@ def generate(prop, rng, tier):
             "prefit": rng.random() < 0.25,
             # the same splitter object, reconfigured, is used for a second evaluation
             "reuse_cv": rng.random() < 0.3,
+            # counts: an integer-dtype target (forecasts are not whole numbers)
+            "int_values": rng.random() < 0.15,
             "fit_params": rng.random() < 0.3,
             # missing values early in the series (NaiveForecaster(last) accepts them)
             "nans": spec == {"kind": "naive", "strategy": "last", "sp": 1, "window_length": None}
@@ -269,7 +277,7 @@ def generate(prop, rng, tier):
         "series": {"seed": rng.randint(0, 10 ** 6), "origin": rng.choice([0, 0, 7, 100]),
                    "index": rng.choice(["range", "range", "int"]), "sp": rng.choice([2, 3, 4])},
         "metric": rng.choice([None, "smape", "mape", "mse", "asym", "neg_mae", "skill", "neg_mae",
-                              "skill", "corr" if len(cv["fh"]) >= 2 else "skill"]),
+                              "skill", "corr" if len(cv["fh"]) >= 2 else "skill", "asym_np", "skill_np"]),
         "n_jobs": rng.choice([None, 1, 2, 2, 3, 4]),
         "pre_dispatch": rng.choice([None, 1, 2, "2*n_jobs", "n_jobs"]),
         "refit": rng.random() < 0.8,
@@ -327,6 +335,9 @@ def execute_c07(scen):
     if scen.get("nans") and scen["cv"]["window"] >= 4 and not scen.get("prefit"):
         y.iloc[[1, 2]] = np.nan   # inside the early training windows, never last, never tested
         res.probe("missing_values_in_training_window")
+    if scen.get("int_values") and not scen.get("nans") and not scen.get("nan_test"):
+        y = y.round().astype("int64")
+        res.probe("integer_valued_series")
     if scen.get("nan_test"):
         y.iloc[[p_ for p_ in scen["nan_test"] if p_ < len(y)]] = np.nan
         res.probe("missing_values_in_test_window")
